@@ -2672,9 +2672,10 @@ impl<T: Storage> Raft<T> {
 
         // Now go ahead and actually restore.
 
-        if self.pending_request_snapshot == INVALID_INDEX
-            && self.raft_log.match_term(meta.index, meta.term)
-        {
+        // A snapshot older than the one this node asked for is not the requested one.
+        let requested = self.pending_request_snapshot != INVALID_INDEX
+            && meta.index >= self.pending_request_snapshot;
+        if !requested && self.raft_log.match_term(meta.index, meta.term) {
             info!(
                 self.logger,
                 "fast-forwarded commit to snapshot";
